@@ -3,7 +3,7 @@
    parse_plan = UPPDDLReader.parse_plan_string up to the look-ups, resolve_* = the look-ups through get_item_named.
    Only statements; each is closed by [exact] of a lemma from Proofs/PlanText_proofs.v.
    Model = code is checked by harness/ext/c18_plan.py (Corr/Corr_C18_plan.v). *)
-From Coq Require Import List NArith ZArith QArith Ascii Bool.
+From Coq Require Import List NArith ZArith QArith Qabs Ascii Bool.
 From Coq Require Import String.
 Import ListNotations.
 Require Import UPV.Model.PlanText UPV.Proofs.PlanText_proofs.
@@ -174,12 +174,81 @@ Theorem C18_plan_empty_tt_kind_refuted :
 Proof. exists (PTT []). split; [reflexivity|]. exists []. split; [reflexivity|]. vm_compute. discriminate. Qed.
 Print Assumptions C18_plan_empty_tt_kind_refuted.
 
-(* the writer on EVERY Fraction (print_dec_real / print_plan_real: Decimal division at 50 significant digits, half-even,
-   plain notation) is only defined and compared with the code (correspondence: byte for byte, also for 1/3, 2/7, more
-   than 50 digits, negative values); that it coincides with print_dec on the exact fragment is checked on every
-   correspondence case but NOT proved: *)
-Definition C18_plan_dec_real_agrees_goal : Prop :=
+(* ---------- the writer on EVERY Fraction: print_dec_real / print_plan_real mirror _time_to_str / _write_plan in full
+   (Decimal division at 50 significant digits, ROUND_HALF_EVEN, plain notation; compared with the code byte for byte
+   also for 1/3, 2/7, more than 50 digits, negative values) ---------- *)
+
+Definition in_exact_fragment (q : Q) : Prop := exists s, print_dec q = Some s.
+
+(* on the exact fragment the total printer IS print_dec *)
+Theorem C18_plan_dec_real_agrees :
   forall q s, q_reduced q = true -> print_dec q = Some s -> print_dec_real q = s.
+Proof. exact print_dec_real_agrees. Qed.
+Print Assumptions C18_plan_dec_real_agrees.
+
+Theorem C18_plan_real_round_trip :
+  forall q, q_reduced q = true -> in_exact_fragment q -> parse_dec (print_dec_real q) = Some q.
+Proof. exact parse_print_dec_real_exact. Qed.
+Print Assumptions C18_plan_real_round_trip.
+
+Theorem C18_plan_plan_real_agrees :
+  forall p t, wf_plan p = true -> print_plan p = Some t -> print_plan_real p = t.
+Proof. exact print_plan_real_agrees. Qed.
+Print Assumptions C18_plan_plan_real_agrees.
+
+(* the plan round trip about the function that mirrors _write_plan in full *)
+Theorem C18_plan_plan_real_round_trip :
+  forall p, wf_plan p = true -> parse_plan (print_plan_real p) = Some (plan_norm p).
+Proof. exact parse_print_plan_real. Qed.
+Print Assumptions C18_plan_plan_real_round_trip.
+
+(* for EVERY q >= 0 the reader gets back dec_rounded q = the value of the 50-digit decimal computed by the writer's
+   division (dec_div50) *)
+Theorem C18_plan_dec_real_parses :
+  forall q, (0 <= Qnum q)%Z -> parse_dec (print_dec_real q) = Some (dec_rounded q).
+Proof. exact parse_print_dec_real. Qed.
+Print Assumptions C18_plan_dec_real_parses.
+
+(* the coefficient printed has at most 50 digits *)
+Theorem C18_plan_dec_real_50_digits :
+  forall n d, (fst (dec_div50 n d) < pow10N 50)%N.
+Proof. exact dec_div50_bound. Qed.
+Print Assumptions C18_plan_dec_real_50_digits.
+
+(* a Fraction whose denominator has a prime factor other than 2 and 5 is denoted by NO decimal string at all *)
+Theorem C18_plan_no_decimal_denotes :
+  forall q s, q_reduced q = true -> (forall k, (pow10N k mod N.pos (Qden q) <> 0)%N) -> parse_dec s <> Some q.
+Proof. exact no_decimal_denotes. Qed.
+Print Assumptions C18_plan_no_decimal_denotes.
+
+(* (boundary of the property, not a finding) outside the exact fragment - non-decimal denominator OR more than 50
+   significant digits - the written time is read back as dec_rounded q, which is NOT q: the round trip loses it *)
+Theorem C18_plan_dec_rounds_outside_fragment :
+  forall q, q_reduced q = true -> (0 <= Qnum q)%Z -> print_dec q = None ->
+    parse_dec (print_dec_real q) = Some (dec_rounded q) /\ dec_rounded q <> q.
+Proof. exact dec_rounds_outside_fragment. Qed.
+Print Assumptions C18_plan_dec_rounds_outside_fragment.
+
+(* NOT proved: that dec_rounded q is THE half-even rounding of q to 50 significant digits (|q - q'| <= half a unit of
+   the 50th digit, ties to even); dec_div50 mirrors _pydecimal's algorithm and is compared with the code on every
+   correspondence case; examples below (incl. the two tie directions) *)
+Definition C18_plan_dec_rounded_is_half_even_goal : Prop :=
+  forall q, q_reduced q = true -> (0 < Qnum q)%Z -> print_dec q = None ->
+    exists c e, dec_rounded q = dec_val c e /\ (pow10N 49 <= c < pow10N 50)%N
+      /\ (Qabs (q - dec_val c e) * (2 # 1) <= dec_val 1 e)%Q
+      /\ ((Qabs (q - dec_val c e) * (2 # 1) == dec_val 1 e)%Q -> N.even c = true).
+
+Definition ex_tie_down : Q := 40000000000000000000000000000000000000000000000001 # 2.
+Definition ex_tie_up : Q := 40000000000000000000000000000000000000000000000003 # 2.
+Example C18_plan_dec_rounds_examples :
+  dec_rounded ex_third = (33333333333333333333333333333333333333333333333333 # 100000000000000000000000000000000000000000000000000)
+  /\ dec_rounded ex_52digits = (100000000000000000000000000000000000000000000000000 # 1)
+  /\ dec_rounded ex_tie_down = (20000000000000000000000000000000000000000000000000 # 1)
+  /\ dec_rounded ex_tie_up = (20000000000000000000000000000000000000000000000002 # 1)
+  /\ dec_rounded ex_eighth = ex_eighth
+  /\ q_reduced ex_tie_down = true /\ q_reduced ex_tie_up = true
+  /\ print_dec ex_third = None /\ print_dec ex_tie_down = None.
+Proof. vm_compute. repeat split. Qed.
 
 Example C18_plan_dec_real_examples :
   print_dec_real ex_third = st "0.33333333333333333333333333333333333333333333333333"%string
